@@ -1143,3 +1143,24 @@ pub open spec fn dec_index(bytes: Seq<u8>, pos: int, limit: int, std_variants: u
         } else { dec_cwn(bytes, pos + 1, limit, root) }
     } else { dec_cwn(bytes, pos, limit, root) }
 }
+
+/// 14 / 23 round trip: decoding the encoding of an index gives the index back
+pub proof fn lemma_rt_index(bytes: Seq<u8>, pos: int, limit: int, std_variants: u64, extensible: bool, index: u64)
+    requires
+        0 <= pos, std_variants >= 1, extensible || index < std_variants,
+        starts_with(bytes, pos, x691_index(std_variants, extensible, index)), pos + x691_index(std_variants, extensible, index).len() <= limit,
+    ensures dec_index(bytes, pos, limit, std_variants, extensible) == Some((index, pos + x691_index(std_variants, extensible, index).len()))
+{
+    if index < std_variants {
+        let e = if extensible { seq![false] } else { Seq::<bool>::empty() };
+        let c = x691_cwn(0, std_variants - 1, index as int);
+        lemma_starts_with_split(bytes, pos, e, c);
+        if extensible { assert(bit_at(bytes, pos + 0) == seq![false][0]); }
+        lemma_rt_cwn(bytes, pos + e.len(), limit, 0, std_variants - 1, index as int);
+    } else {
+        let n = (index - std_variants) as u64;
+        lemma_starts_with_split(bytes, pos, seq![true], x691_nsnnwn(n));
+        assert(bit_at(bytes, pos + 0) == seq![true][0]);
+        lemma_rt_nsnnwn(bytes, pos + 1, limit, n);
+    }
+}
